@@ -49,20 +49,37 @@ def symmetric_image(rng, n, m, s0, s1, lo, hi, real=False):
 
 def run_impl(c):
     from abel.tools.center import find_origin
+    kw = {}
+    if c.get('round') is not None:
+        kw['round_output'] = c['round']
+    if c.get('proj'):
+        kw['projections'] = True
     with warnings.catch_warnings(), np.errstate(all='ignore'):
         warnings.simplefilter('ignore')
         try:
-            o = find_origin(c['IM'], method=c['meth'], axes=c['axes'])
+            o = find_origin(c['IM'], method=c['meth'], axes=c['axes'], **kw)
         except Exception as e:      # noqa
             return ('Raises', type(e).__name__)
+    conv = None
+    if c.get('proj'):
+        o, conv0, conv1 = o
+        conv = [None if v is None else [float(x) for x in v] for v in (conv0, conv1)]
     o = [float(v) for v in o]
     if not all(np.isfinite(o)):
         return ('NonFinite',)
-    return ('Ok', o[0], o[1])
+    return ('Ok', o[0], o[1], conv)
 
 
 def gen_cases(ctx, rng):
     cases = []
+
+    def options(c):
+        """every documented option value of the modelled methods: round_output (None = not passed / False / True;
+        acted upon by com, swallowed by the others), projections=True (convolution)"""
+        c['round'] = [None, False, True, True][rng.integers(4)] if c['meth'] == 'com' else \
+            [None, None, None, True][rng.integers(4)]
+        c['proj'] = bool(c['meth'] == 'convolution' and rng.random() < 0.4)
+
     shapes = [(n, m) for n in range(1, 10) for m in range(1, 10)]
     nsym = 500 if ctx.quick else 6000
     nasym = 400 if ctx.quick else 4000
@@ -77,6 +94,7 @@ def gen_cases(ctx, rng):
             IM = IM.astype(int)
         cases.append(dict(kind='symmetric', IM=IM, meth=['com', 'convolution'][rng.integers(2)],
                           axes=AXES[rng.integers(3)], centre=(s0 / 2, s1 / 2)))
+        options(cases[-1])
     for _ in range(nasym):
         n, m = shapes[rng.integers(len(shapes))]
         lo = 0 if rng.random() < 0.6 else -9
@@ -87,6 +105,16 @@ def gen_cases(ctx, rng):
             IM = IM.astype(float)
         cases.append(dict(kind='asymmetric', IM=IM, meth=METHODS[rng.integers(3)],
                           axes=AXES[rng.integers(3)] if rng.random() < 0.95 else ()))
+        options(cases[-1])
+    # two point masses in adjacent pixels: centre of mass k + w2/(w1+w2), incl. exact ties (k + 1/2)
+    for _ in range(120 if ctx.quick else 1500):
+        n, m = shapes[rng.integers(len(shapes))]
+        IM = np.zeros((n, m))
+        i, j = int(rng.integers(n)), int(rng.integers(m))
+        w1, w2 = (1, 1) if rng.random() < 0.4 else (int(rng.integers(1, 9)), int(rng.integers(1, 9)))
+        IM[i, j] = w1
+        IM[min(i + 1, n - 1), min(j + 1, m - 1)] += w2
+        cases.append(dict(kind='two-masses', IM=IM, meth='com', axes=AXES[rng.integers(3)], round=True))
     return cases
 
 
@@ -96,14 +124,22 @@ def case_coq(c, res):
     else:
         exp = 'ENonFinite'
     ax0, ax1 = ax_flags(c['axes'])
-    return ('{| c_im := %s; c_meth := %s; c_ax0 := %s; c_ax1 := %s; c_expect := %s |}'
+    proj = 'None'
+    if res[0] == 'Ok' and res[3] is not None:
+        def ol(v):
+            return 'None' if v is None else '(Some %s)' % vlib.list_lit([vlib.q_lit(x) for x in v])
+        proj = '(Some (%s, %s))' % (ol(res[3][0]), ol(res[3][1]))
+    return ('{| c_im := %s; c_meth := %s; c_ax0 := %s; c_ax1 := %s; c_round := %s; c_proj := %s; c_expect := %s |}'
             % (vlib.img_q(np.asarray(c['IM']).tolist()), METH_COQ[c['meth']], vlib.bool_lit(ax0),
-               vlib.bool_lit(ax1), exp))
+               vlib.bool_lit(ax1), vlib.bool_lit(bool(c.get('round'))), proj, exp))
 
 
 def correspondence(ctx, rng):
     cases = gen_cases(ctx, rng)
     results = [run_impl(c) for c in cases]
+    # round(nan) raises for the centre of mass of a zero-total image: same class as the nan result
+    results = [('NonFinite',) if (r[0] == 'Raises' and c.get('round') and c['meth'] == 'com' and r[1] == 'ValueError')
+               else r for c, r in zip(cases, results)]
     raised = [i for i, r in enumerate(results) if r[0] == 'Raises']
     shard = 400
     texts = []
@@ -128,7 +164,8 @@ def correspondence(ctx, rng):
         bad += [k * shard + i for i in vlib.parse_nat_list(m.group(2)) if k * shard + i not in raised]
     dist = {}
     for c, r in zip(cases, results):
-        key = '%s/%s/%s' % (c['kind'], c['meth'], r[0])
+        key = '%s/%s%s%s/%s' % (c['kind'], c['meth'], '+round' if c.get('round') else '',
+                                '+projections' if c.get('proj') else '', r[0])
         dist[key] = dist.get(key, 0) + 1
     return cases, results, n_ok, sorted(set(bad)), errors, dist
 
